@@ -922,6 +922,10 @@ func (x *g) varOr(k kind, lit func() string) string {
 
 func (x *g) intLit() string {
 	if x.cfg.BigConsts && x.chance(0.1, "big") {
+		x.f("consts")
+		if x.chance(0.3, "floatconst") {
+			return []string{"int(2.5 * 2)", "int(1e3)", "len(b\"ab\\xff\\x00\")", "int(0.1 + 0.2 + 4503599627370497.0)", "len(str(1e300))"}[x.intn(5, "fc")]
+		}
 		return []string{"0x7fffffff", "2147483648", "-2147483649", "0xffffffffffffffff", "123456789012345678901234567890",
 			"0o777", "0b1011"}[x.intn(7, "bigv")]
 	}
@@ -934,6 +938,7 @@ func (x *g) intLit() string {
 
 func (x *g) strLit() string {
 	if x.cfg.BigConsts && x.chance(0.1, "strange") {
+		x.f("consts")
 		return []string{`"\x00\x01"`, `"éé\U0001F600"`, `'it"s'`, `"""tri
 ple"""`, `r"raw\n"`, `""`}[x.intn(6, "strv")]
 	}
@@ -1372,4 +1377,37 @@ func (x *g) callExprWithDepth(f *varInfo, first string) string {
 		all = append(all, "**"+starstar)
 	}
 	return fmt.Sprintf("%s(%s)", f.name, strings.Join(all, ", "))
+}
+
+// Pad returns src with blank/comment lines inserted between statements and
+// runs of spaces inserted after some "t(" tokens, so that line and column
+// deltas in the compiled position tables saturate. The program's meaning is
+// unchanged. maxGap bounds the number of inserted lines / columns per site.
+func Pad(t *rapid.T, src string, maxGap int) string {
+	lines := strings.Split(src, "\n")
+	var out []string
+	inTriple := false
+	for _, l := range lines {
+		if !inTriple && vk.Chance(t, 0.15) {
+			n := []int{1, 17, 40, 300, maxGap}[vk.Uniform(t, 5)]
+			for i := 0; i < n; i++ {
+				if i%50 == 7 {
+					out = append(out, "# pad")
+				} else {
+					out = append(out, "")
+				}
+			}
+		}
+		if !inTriple && strings.Contains(l, "t(") && vk.Chance(t, 0.2) {
+			n := []int{1, 33, 70, 1000, maxGap}[vk.Uniform(t, 5)]
+			i := strings.Index(l, "t(")
+			// only pad call sites that are not inside a string literal on this line (generated strings never contain "t(")
+			l = l[:i+2] + strings.Repeat(" ", n) + l[i+2:]
+		}
+		if strings.Count(l, `"""`)%2 == 1 {
+			inTriple = !inTriple
+		}
+		out = append(out, l)
+	}
+	return strings.Join(out, "\n")
 }
